@@ -270,6 +270,31 @@ func hugeRecords(rec *hx.Recorder) {
 	rec.NonTrivialEnum(n)
 }
 
+// collidingDefinitions: a local type is redefined with a field list whose
+// definition bytes have the same CRC-32 / CRC-32C / CRC-16 / Adler-32 / byte
+// sum as the list it replaces (pairs found by a birthday search, see
+// gen.CollidingDefs), and back. Each record still means what the definition
+// in force says.
+func collidingDefinitions(rec *hx.Recorder) {
+	n := int64(0)
+	for _, known := range []fitmodel.FieldDef{{Num: 3, Size: 1, Base: 0x02}, {Num: 4, Size: 1, Base: 0x02}} {
+		for _, p := range gen.CollidingDefs(20, known, 3) {
+			for _, be := range []bool{false, true} {
+				st := gen.CollisionStream(p, be)
+				c := mkCase(4, st)
+				n++
+				rec.Class("definitions colliding under "+p.Hash, 1)
+				if sig, msg, ok := checkStream(rec, c, map[string]int{}); !ok {
+					rec.Fail("colliding-definitions", sig, "a local type redefined with a field list whose definition bytes have the same "+p.Hash+" as the list it replaces: "+msg, c)
+					return
+				}
+			}
+		}
+	}
+	rec.Eval("colliding-definitions", n)
+	rec.NonTrivialEnum(n)
+}
+
 func fourGiB() gen.BigResult {
 	g := gen.NewBigFile(0xFFFFFFFF, 0xFFFFFFFF, nil)
 	return gen.DecodeBig(g, func(r io.Reader) ([]byte, error) {
@@ -343,6 +368,7 @@ func TestC02(t *testing.T) {
 		if hx.FirstShard() {
 			sweep(t, rec)
 			hugeRecords(rec)
+			collidingDefinitions(rec)
 		}
 
 		hx.RapidCheck(t, rec, "streams", func(rt *rapid.T, fail func(string, string, any)) {
